@@ -270,6 +270,30 @@ def rule_p1(ctx, F):
         ctx.gate("P1", fn, [pt for pt, c, d in wt], [("the file is rewritten only with --update", "(*_).update", True)], accept_desc="rewriting the corpus file")
 
 
+CORRECTION_LIST_OPS = {"::push": "one entry per test, in file order", "::clear": "after the file was written", "Deref>::deref": "read-only view for write_tests",
+                       "::len": "read", "::is_empty": "read", "::iter": "read", "::as_slice": "read"}
+
+
+def rule_p3(ctx, F):
+    """P3: the list of entries that is written back is exactly what was collected: in run_tests the per-file list of
+    corrections is only appended to, read, and cleared after the write.  Any reshaping in between (dedup, retain, sort,
+    truncate, remove…) drops or reorders tests on --update — e.g. a dedup by name deletes the second of two adjacent tests
+    that share a name."""
+    import rsrules
+    fn = ctx.need_fn(F, "test::run_tests", "P3")
+    if not fn:
+        return
+    lst = fn.params[4]["name"] if len(fn.params) > 4 else "corrected_entries"
+    ops = [(pt, c.get("fn") or "") for pt, c in fn.calls() if c.get("a") and rsrules.trace_root(fn, c["a"][0]) == lst and "Vec" in (c.get("fn") or "")]
+    ctx.floor("operations on the list of corrected entries in run_tests", len(ops), 5)
+    bad = [(pt, f) for pt, f in ops if not any(f.endswith(k) or k in f for k in CORRECTION_LIST_OPS)]
+    if bad:
+        ctx.bad("P3", "run_tests:corrections-only-appended", "run_tests reshapes the list of entries to be written back with %s at %s: tests are dropped or reordered by --update" % (
+            bad[0][1].split("::")[-1], fn.loc(bad[0][0])), {"site": fn.loc(bad[0][0]), "call": bad[0][1]})
+    else:
+        ctx.ok("P3", "run_tests:corrections-only-appended", "the list handed to write_tests is only pushed to, read and cleared (%d operations)" % len(ops))
+
+
 def rule_p2(ctx, F):
     """P2: a corpus file is rewritten only from the *complete* list of its tests: write_tests is reached
     only after the loop over the group's children ran to exhaustion (a fail-fast stop must leave the
@@ -566,6 +590,7 @@ def run(ctx):
     rule_b1(ctx, F)
     rule_w1(ctx, F)
     rule_p2(ctx, F)
+    rule_p3(ctx, F)
     return ctx.finish(
         "Field-flow, taint and path-counting rules over rustc MIR of crates/cli/src/test.rs: each TestCorrection is built from the entry's own name/input/attributes/delimiter lengths; "
         "the writer reads every field; with --update each Example path to Ok(true) records exactly one correction; the recognised delimiter suffix must reach the entry. "
